@@ -220,6 +220,7 @@ pub struct World
     pub retags: u32,
     pub invocations: u64,
     pub noop_ops: u64,
+    pub old_stamps: u64,
     /// every path that was ever declared as a target in this history (C08's P)
     pub ever_targets: BTreeSet<String>,
 }
@@ -264,6 +265,7 @@ impl World
             retags: 0,
             invocations: 0,
             noop_ops: 0,
+            old_stamps: 0,
             ever_targets: BTreeSet::new(),
         };
         w.sync_rules();
@@ -593,6 +595,16 @@ impl World
                 let p = ts[gen::pick(*t, ts.len())].clone();
                 self.sys.h_write(&p, CONTENT_POOL[*content as usize % 5].as_bytes());
                 Applied::UserAction(format!("tamper {}", p))
+            }
+            Op::TamperOld { t, content } =>
+            {
+                // a distinct write that happened in the past: its own, never reused, old modification time
+                let ts = self.model.all_targets();
+                let p = ts[gen::pick(*t, ts.len())].clone();
+                self.old_stamps += 1;
+                let mtime = super::vsys::EPOCH_US - 1_000_000 - self.old_stamps;
+                self.sys.h_write_at(&p, CONTENT_POOL[*content as usize % 5].as_bytes(), mtime);
+                Applied::UserAction(format!("replace {} by an older file", p))
             }
             Op::DeleteTarget { t } =>
             {
